@@ -6,7 +6,7 @@ CONSTANTS MaxWrites, Statuses
 VARIABLES sc, done
 vars == <<sc, done>>
 Sources == SUBSET {"config", "delta", "bat", "pager"}
-Base == [stay : {FALSE}, big : {FALSE}, how : {"files"}]
+Base == [stay : {FALSE}, big : {FALSE}, how : {"files"}, bare : {FALSE}]
 Join(S, T) == {s @@ t : s \in S, t \in T}
 Scenarios ==
   Join([mode : {"stdin"}, out : {"stdout"}, quit : 0..MaxWrites, status : {0}, src : {{}}, pagerval : {"envpager"}], Base)
@@ -16,12 +16,15 @@ Scenarios ==
   \cup Join([mode : {"diff", "wrap"}, out : {"pager"}, quit : {0, 10}, status : Statuses, src : {{"config"}, {}}, pagerval : {"envpager"}], Base)
   \* a pager that stops reading but stays alive, with more output than the pipe holds / that fits into it
   \cup [mode : {"stdin", "wrap"}, out : {"pager"}, quit : {1, 10, 5000}, status : {0}, src : {{}, {"config"}, {"pager"}},
-        pagerval : {"envpager"}, stay : {TRUE}, big : BOOLEAN, how : {"files"}]
+        pagerval : {"envpager"}, stay : {TRUE}, big : BOOLEAN, how : {"files"}, bare : {FALSE}]
   \* informational output with a reader that goes away
   \cup Join([mode : {"showconfig", "version"}, out : {"stdout"}, quit : 0..3, status : {0}, src : {{}}, pagerval : {"envpager"}], Base)
   \* two-file mode: the same path twice; an option the differ rejects
   \cup [mode : {"diff"}, out : {"stdout", "pager"}, quit : {0}, status : {0, 2}, src : {{}}, pagerval : {"envpager"},
-        stay : {FALSE}, big : {FALSE}, how : {"samepath", "badopt"}]
+        stay : {FALSE}, big : {FALSE}, how : {"samepath", "badopt"}, bare : {FALSE}]
+  \* an explicitly configured bare `less`
+  \cup [mode : {"stdin"}, out : {"pager"}, quit : {0, 10}, status : {0}, src : {{"config"}, {"delta"}, {"config", "delta", "pager"}, {"delta", "bat"}},
+        pagerval : {"envpager", "less -F"}, stay : {FALSE}, big : {FALSE}, how : {"files"}, bare : {TRUE}]
 Init == sc \in Scenarios /\ done = FALSE
 Next == ~done /\ done' = TRUE /\ UNCHANGED sc
 Spec == Init /\ [][Next]_vars
@@ -29,5 +32,5 @@ Total == WantExit(sc) \in 0..255 /\ Chosen(sc) \in {"mypager", "otherpager", "ba
 QuitIsQuiet == sc.quit > 0 => WantExit(sc) = 0 /\ WantQuiet(sc)
 Replay == done \/ PrintT(<<"REPLAY", ToJson([mode |-> sc.mode, out |-> sc.out, quit |-> sc.quit, status |-> sc.status,
                                              src |-> [x \in {"config", "delta", "bat", "pager"} |-> x \in sc.src],
-                                             pagerval |-> sc.pagerval, stay |-> sc.stay, big |-> sc.big, how |-> sc.how])>>)
+                                             pagerval |-> sc.pagerval, stay |-> sc.stay, big |-> sc.big, how |-> sc.how, bare |-> sc.bare])>>)
 =============================================================================
